@@ -186,9 +186,12 @@ def long_line_probe(ctx):
                 out.oracle_fail("long-line-probe", inp, f"streaming peak {peak} B with buffer {bs} and line length {w}")
 
 
-def gap_character_stream(ctx, count):
+def gap_character_stream(ctx, count, reassign=False):
     """one FastaIndex object streamed several times with DIFFERENT gap characters (FastaStream's `gap_character`), gaps of 0..3 buffer
-    lengths, every buffer size: each output must be the spec with the character asked for — whatever was streamed before"""
+    lengths, every buffer size: each output must be the spec with the character asked for — whatever was streamed before.
+    `reassign`: the public attribute `buffer_size` of that one object is ALSO set to another value between the passes (stream
+    `buffer-size-reassigned`): the bytes must not depend on the sizes used before."""
+    stream = "buffer-size-reassigned" if reassign else "gap-characters"
     import io
     from tola.fasta.index import FastaIndex, FastaInfo
     from tola.fasta.stream import FastaStream
@@ -205,12 +208,17 @@ def gap_character_stream(ctx, count):
             fai = FastaIndex(p, bs)
             fai.index = {r[0]: FastaInfo(r[1], r[2], r[3], r[4]) for r in idx}
             chars = [rng.choice([b"N", b"n", b"X", b"-"]) for _ in range(rng.randint(2, 3))]
+            if reassign:
+                chars = [chars[0]] * rng.randint(2, 4) if rng.random() < 0.7 else chars
+            sizes = [bs] + [rng.choice([1, 2, 3, 5, 7, 16, 2 * bs, max(1, bs // 2), 1000]) if reassign else bs for _ in chars[1:]]
             seqs = {r["name"]: r["seq"] for r in recs}
             asm = Assembly("x", scaffolds=[conv.to_real_scaffold(s_) for s_ in scs])
-            inp = {"fasta": data.decode("latin-1"), "scaffolds": scs, "bs": bs, "gap_characters_in_order": [c.decode() for c in chars]}
-            ctx.out.case("gap-characters", inp, ("gapchar", bs, len(chars)))
+            inp = {"fasta": data.decode("latin-1"), "scaffolds": scs, "bs": bs, "gap_characters_in_order": [c.decode() for c in chars],
+                   "buffer_sizes_in_order": sizes}
+            ctx.out.case(stream, inp, ("gapchar", bs, len(chars), tuple(sizes) if reassign else ()))
             try:
-                for ch in chars:
+                for ch, bs_k in zip(chars, sizes):
+                    fai.buffer_size = bs_k
                     buf = io.BytesIO()
                     FastaStream(buf, fai, gap_character=ch).write_assembly(asm)
                     exp = bytearray()
@@ -226,10 +234,10 @@ def gap_character_stream(ctx, count):
                         for k in range(0, len(body), 60):
                             exp += body[k:k + 60] + b"\n"
                     if buf.getvalue() != bytes(exp):
-                        ctx.out.oracle_fail("gap-characters", inp, f"stream with gap character {ch!r} (buffer {bs}) differs from the spec: the bytes depend on what was streamed before / on the buffer size")
+                        ctx.out.oracle_fail(stream, inp, f"stream with gap character {ch!r} (buffer sizes in order {sizes}, now {bs_k}) differs from the spec: the bytes depend on what was streamed before / on the buffer size")
                         break
             except Exception as e:
-                ctx.out.oracle_fail("gap-characters", inp, f"streaming raised {conv.errkind(e)}")
+                ctx.out.oracle_fail(stream, inp, f"streaming raised {conv.errkind(e)}")
             finally:
                 try:
                     fai.fasta_fileandle.close()
@@ -239,6 +247,7 @@ def gap_character_stream(ctx, count):
 
 def run(ctx):
     gap_character_stream(ctx, 400 if ctx.thorough else 60)
+    gap_character_stream(ctx, 400 if ctx.thorough else 60, reassign=True)
     long_line_probe(ctx)
     n = 12 if ctx.thorough else 1
     check(ctx, "buffers", [gen(ctx.rng) for _ in range(120 * n)])
